@@ -23,6 +23,7 @@ type LoadConfig struct {
 	GOARCH    string   // "" = host
 	Toolchain string   // "local" (go1.26.8 driver) or "auto" (repo's own toolchain from the module cache)
 	Patterns  []string // default ./...
+	Overlay   map[string][]byte `json:"-"` // rewritten sources (clone.go); nil on the first load
 }
 
 func (c LoadConfig) String() string {
@@ -52,13 +53,40 @@ type Program struct {
 	NumBlock int
 	NumInstr int
 	mdl      *Model
+	Cloned    []string // helpers analysed as one copy per call site (clone.go)
+	CloneNote string
 }
 
 const goRoot1268 = "/opt/veriftools/go1.26.8"
 
 var origPath = os.Getenv("PATH")
 
+// loadProgram loads the repository; when the library contains blocking helpers shared by
+// several call sites (clone.go) it is loaded a second time from an overlay in which every such
+// helper has one copy per call site.
 func loadProgram(cfg LoadConfig) (*Program, error) {
+	p, err := loadProgramOnce(cfg)
+	if err != nil || cfg.Overlay != nil {
+		return p, err
+	}
+	overlay, cloned := p.sharedHelperOverlay()
+	if len(overlay) == 0 {
+		return p, nil
+	}
+	cfg2 := cfg
+	cfg2.Overlay = overlay
+	p2, err := loadProgramOnce(cfg2)
+	if err != nil {
+		// the rewriting must never make the analysis fail: fall back to the program as written
+		p.CloneNote = "cloning of " + strings.Join(cloned, ", ") + " abandoned: " + err.Error()
+		return p, nil
+	}
+	p2.Cloned = cloned
+	p2.NumFuncs, p2.NumBlock, p2.NumInstr = p.NumFuncs, p.NumBlock, p.NumInstr // sizes of the source as written
+	return p2, nil
+}
+
+func loadProgramOnce(cfg LoadConfig) (*Program, error) {
 	if len(cfg.Patterns) == 0 {
 		cfg.Patterns = []string{"./..."}
 	}
@@ -98,6 +126,9 @@ func loadProgram(cfg LoadConfig) (*Program, error) {
 		Dir:   cfg.Dir,
 		Env:   env,
 		Tests: false,
+	}
+	if cfg.Overlay != nil {
+		pc.Overlay = cfg.Overlay
 	}
 	if cfg.Tags != "" {
 		pc.BuildFlags = []string{"-tags=" + cfg.Tags}
